@@ -62,20 +62,35 @@ Fixpoint creates_tr (w : world) (m : Z) (l : list (Z * Z)) : trace_t :=
   | cv :: t => init_ev w m (fst cv) ++ creates_tr (fst (agent_init w m (fst cv) (PInt (snd cv)))) m t
   end.
 
-(* agent.remove() with dynamic dispatch: the constructor calls of an overriding remove() are events too *)
-Definition obj_remove_tr (w : world) (k : Z) : trace_t :=
+(* agent.remove() with dynamic dispatch: the constructor calls of an overriding remove() are events too, and so is
+   everything done by the remove() of another agent it calls *)
+Definition ov_body_tr (w : world) (k : Z) (a : arec) (o : override) : trace_t :=
+  let w1 := creates w (a_model a) (ov_pre o) in
+  let w2 := if ov_super o then agent_remove w1 k else w1 in
+  creates_tr w (a_model a) (ov_pre o) ++ (if ov_super o then dereg_ev w1 k else []) ++
+  creates_tr w2 (a_model a) (ov_post o).
+
+Fixpoint obj_remove_f_tr (fuel : nat) (w : world) (k : Z) : trace_t :=
   match find_agent (w_born w) k with
   | None => []
   | Some a =>
       match ov_of (a_cls a) with
       | None => dereg_ev w k
       | Some o =>
-          let w1 := creates w (a_model a) (ov_pre o) in
-          let w2 := if ov_super o then agent_remove w1 k else w1 in
-          creates_tr w (a_model a) (ov_pre o) ++ (if ov_super o then dereg_ev w1 k else []) ++
-          creates_tr w2 (a_model a) (ov_post o)
+          let w3 := ov_body w k a o in
+          ov_body_tr w k a o ++
+          (if ov_partner o then
+             match fuel with
+             | O => []
+             | S f => match partner_target w3 k a with
+                      | Some p => obj_remove_f_tr f w3 p
+                      | None => []
+                      end
+             end
+           else [])
       end
   end.
+Definition obj_remove_tr (w : world) (k : Z) : trace_t := obj_remove_f_tr (S (length (w_born w))) w k.
 
 Fixpoint fold_remove_tr (l : list Z) (w : world) : trace_t :=
   match l with
@@ -214,13 +229,29 @@ Proof.
   eapply Tr_trans; [apply Tr_init|apply IH].
 Qed.
 
-Lemma Tr_obj_remove w k : Tr w (obj_remove_tr w k) (obj_remove w k).
+Lemma Tr_ov_body w k a o : Tr w (ov_body_tr w k a o) (ov_body w k a o).
 Proof.
-  unfold obj_remove_tr, obj_remove. destruct (find_agent (w_born w) k) as [a|]; [|apply Tr_refl].
-  destruct (ov_of (a_cls a)) as [o|]; [|apply Tr_dereg].
+  unfold ov_body_tr, ov_body.
   eapply Tr_trans; [apply Tr_creates|]. eapply Tr_trans; [|apply Tr_creates].
   destruct (ov_super o); [apply Tr_dereg|apply Tr_refl].
 Qed.
+
+Lemma Tr_app_nil w tr w' : Tr w tr w' -> Tr w (tr ++ []) w'.
+Proof. rewrite app_nil_r. auto. Qed.
+
+Lemma Tr_obj_remove_f fuel : forall w k, Tr w (obj_remove_f_tr fuel w k) (obj_remove_f fuel w k).
+Proof.
+  induction fuel as [|f IH]; intros w k; simpl;
+    (destruct (find_agent (w_born w) k) as [a|]; [|apply Tr_refl]);
+    (destruct (ov_of (a_cls a)) as [o|]; [|apply Tr_dereg]);
+    (destruct (ov_partner o); [|apply Tr_app_nil; apply Tr_ov_body]).
+  - apply Tr_app_nil. apply Tr_ov_body.
+  - destruct (partner_target (ov_body w k a o) k a) as [p|]; [|apply Tr_app_nil; apply Tr_ov_body].
+    eapply Tr_trans; [apply Tr_ov_body|apply IH].
+Qed.
+
+Lemma Tr_obj_remove w k : Tr w (obj_remove_tr w k) (obj_remove w k).
+Proof. apply Tr_obj_remove_f. Qed.
 
 Lemma Tr_fold_remove l : forall w, Tr w (fold_remove_tr l w) (fold_left obj_remove l w).
 Proof.
